@@ -139,6 +139,8 @@ func runC06(c *Ctx, tier string) {
 		c.Undecided("C06-S2", "value comparison functions", "fewer than 2 functions with signature func(zed.Value, zed.Value) int found")
 	}
 	// who constructs CompareFn values: conversions / closures assigned to CompareFn-typed things must be such functions
+	// F1
+	runSortSentinels(c, "C06-F1")
 	// S3
 	spillPeekerCopy(c, "C06-S3")
 }
